@@ -7,7 +7,10 @@ import RuxModel.Model.Rest
   Program lines are BUFFERED (answer `ok`) and executed by `run` with the model's `execList` on the
   parsed statement tree — the very function the theorems of Props/C12 are about:
 
-    new <405?>                                   reset; 1 = router built with HandleMethodNotAllowed
+    new <405?> [<cache>]                         reset; 1 = router built with HandleMethodNotAllowed;
+                                                 <cache> (0..65535): 0 = no route cache, 1000 = EnableCaching, n = CachingWithNum(n).
+                                                 The model has no cache: the lookup is cache-transparent (C07_transparent), so the
+                                                 answer to a repeated serve/probe line is the answer to the first one.
     buf <bid> <tags>                             a caller-side array shared by later arguments
     use <arg>
     route <id> <kind> <name> <methods> <path> <pre> <post>
@@ -178,6 +181,10 @@ def chainAns (st : RS) (res : Resolved) : String :=
 
 def regStep (s : RegSt) : List String → RegSt × String
   | ["new", o] => ({ RegSt.init with opt405 := o = "1" }, "ok")
+  | ["new", o, c] =>
+    match c.toNat? with
+    | some n => if n < 65536 then ({ RegSt.init with opt405 := o = "1" }, "ok") else (s, "bad-op")
+    | none => (s, "bad-op")
   | ["buf", b, tags] =>
     match b.toNat?, parseNatList tags with
     | some b, some t => ({ s with bufs := (b, t) :: s.bufs }, "ok")
